@@ -131,6 +131,18 @@ def c08_shuffle(R):
         inp = desc(N, A, E, solver="sa", shuffle=True, seed=seed, max_batch_size=bs, calls=[3, 4], v0=v0, **tables(ns, r, p)); R.case(("sa_shuffle", N, A, E, seed), None)
         if int(sa.info.iteration) != int(sb.info.iteration) or not close(sa.values, sb.values, 1e-10):
             R.fail("c08.composable", "shuffled semi-async: solve(3); solve(4) differs from solve(7)", inp, np.asarray(sa.values), np.asarray(sb.values))
+    # policy iteration (both settings of reset_values_for_each_policy_eval, small evaluation budget so that the starting point of an evaluation matters)
+    for t, N, A, E, ns, r, p in mdps(4, lo=4, hi=9):
+        if A < 2: ns, r, p = rand_mdp(rng, N, 3, max(E, 2)); A, E = 3, max(E, 2)
+        v0 = rng.normal(0, 3, N)
+        for reset in (False, True):
+            mk = lambda: PI(Tab(ns, r, p, v0), gamma=0.9, epsilon=1e-10, verbose=0, max_eval_iter=3, reset_values_for_each_policy_eval=reset)
+            b_ = mk(); sb = b_.solve(3)
+            if int(sb.info.iteration) <= 1: continue          # the single run is policy-stable after its first iteration: a first call solve(1) would stop BY CONVERGENCE (excluded by the property's proviso)
+            a_ = mk(); a_.solve(1); sa = a_.solve(2)
+            inp = desc(N, A, E, solver="pi", reset_values_for_each_policy_eval=reset, max_eval_iter=3, calls=[1, 2], v0=v0, **tables(ns, r, p)); R.case(("pi_compose", N, A, E, reset), None)
+            if int(sa.info.iteration) != int(sb.info.iteration) or not close(sa.values, sb.values, 1e-10) or not np.array_equal(np.asarray(sa.policy), np.asarray(sb.policy)):
+                R.fail("c08.composable", "policy iteration: solve(1); solve(2) differs from solve(3)", inp, np.asarray(sa.values), np.asarray(sb.values))
 # ----------------------------------------------------------------------------------------------------------------- C01
 def c01_report(): return Report("c01_runtime", "C01", "random tabular MDPs x {VI span, VI max_diff, PI span, PI max_diff, semi-async max_diff (fixed + shuffled)}; exact policy evaluation by linear solve; distinct = (solver, sizes)")
 def c01(R):
